@@ -173,13 +173,22 @@ CLAIMED = {
          "fair all-pairs cycles until quiescence; oracle: within 30 cycles nobody is busy and everything accepted is committed by all (measured: 1-7 cycles)",
          "partial: runtime behaviour not exhibited by the model: timers, goroutine scheduling, random peer selection; the convergence bound is exploration only",
          "Coq lemmas on the logic + controlled-schedule exploration with a deterministic fair suffix"),
- "C13": ("PARTIAL. Proved: a frame is computed once per round and never recomputed; a block carries its frame, round and validator set. Reset/InsertFrameEvent are not in the "
-         "Coq model yet, so continuity is decided by the oracle: in dynamic-membership histories half of the joiners fast-forward from a random honest peer's anchor "
-         "(changes pending inside the six-round window and round-0 first events of other joiners included) and keep gossiping; after every action their blocks, frame "
-         "and peers hashes, validator-set history and event rounds are compared with full-history nodes. This exposed three defects that were fixed in /repo "
-         "(3b6a6ac, d85ab32, eae5248) and one known finding (ROOT_DEPTH roots can be insufficient)",
-         "partial: the theorems do not cover the reset path; known finding C13-roots-insufficient is tolerated, identified by its root cause (first divergence = round of an event above the frame)",
-         "Coq lemmas on frames + reset-vs-full-history differential oracle on real cores"),
+ "C13": ("PARTIAL. The reset path is in the Coq model (Model/HgReset.v: Hashgraph.Reset, InmemStore.Reset, InsertFrameEvent, SortedFrameEvents, core.fastForward after "
+         "checkFastForward, node.fastForward's receipts). Proved, for EVERY victim state / block / frame with distinct non-negative event ids and a sorted table: the state "
+         "left by a fast-forward (block store = the anchor, frame cache = the frame, table = the frame's table, validators = its latest set, lower bound = last consensus "
+         "round = the block's round-received, empty queues; DAG = exactly the root and frame events with the recorded round / Lamport / witness flag in events, memo tables "
+         "and round table). Proved for every reachable serving state: the anchor answer is a delivered block with the frame it was built from; every frame event carries the "
+         "server's memoised values (never overwritten); the reset node's table and every lookup in it do not depend on the order in which Store.Reset walks the Go map Frame.PeerSets; a frame records the table that C10's replay gives for the earlier blocks, so a reset node ends with exactly the table and "
+         "validators C10 specifies for blocks 0..k (pending changes inside the six-round window included). Continuity: an event inserted after the reset gets the same round / "
+         "witness flag / Lamport timestamp as on a full-history node PROVIDED roots_sufficient (the parent-round witnesses it strongly sees are known to the reset node, the "
+         "coordinate comparisons agree). The unconditional statement is REFUTED on the faithful model (C13_roots_insufficient_refuted: 49-action history found and minimised "
+         "on the real cores by harness/cmd/resetwit, replayed by vm_compute, and shown to violate exactly roots_sufficient) = known finding C13-roots-insufficient. The "
+         "block-level statement after the reset is a Definition (not proved). Correspondence: every fast-forward of the gossip histories is replayed on the model (the "
+         "received block/frame/event bodies vs the model of the serving node, then the reset itself), and reset nodes are compared with the model on all observables after "
+         "every action like any other node (0 differences); oracle: reset nodes vs full-history nodes (blocks, hashes, validator-set history, rounds) and, on reset nodes, GetPeerSet(r) for every round r against the node's own reported history",
+         "partial: continuity only under roots_sufficient; BadgerStore.Reset, checkFastForward (C12/C14) and the wire fields of frame events (C15) are outside this model; "
+         "known finding C13-roots-insufficient is tolerated, identified by its root cause",
+         "Coq model of the reset path + invariants over all operation sequences + refutation witness replayed on the code + per-action correspondence of reset nodes + differential oracle"),
  "C10": ("Proved in Coq for every operation sequence of a node with an application (insertions of arbitrary events carrying arbitrary join/leave "
          "requests, accepted or refused, ProcessSigPool, commits): the PeerSetCache table and core.validators equal the replay of the node's own delivered "
          "blocks (accepted receipts in order, new set at round-received+6, 'round already recorded' error branch included); nothing but commit writes them; "
